@@ -167,7 +167,8 @@ func (seg *Segment) AmbiguousPrefix(s2 *Segment) (int, bool) {
 	if seg.Type == String || seg.Type != s2.Type || seg.rule != s2.rule {
 		return 0, false
 	}
-	if seg.ignoreName == s2.ignoreName && seg.Name == s2.Name { // 同一个参数
+	// 同一个参数，必须是写法完全相同，{id:} 与 {id} 名称相同，但依然是两个存在歧义的节点。
+	if seg.Value[:len(seg.Value)-len(seg.Suffix)] == s2.Value[:len(s2.Value)-len(s2.Suffix)] {
 		return 0, false
 	}
 
